@@ -534,7 +534,7 @@ pub fn small_value(ty: ColType, null_pct: u32) -> BoxedStrategy<Value> {
         // multiples of 0.25 with small magnitude: sums are exact in any order
         ColType::Double => (-8i64..9).prop_map(|k| Value::Double(k as f64 * 0.25)).boxed(),
         ColType::Str => prop_oneof![
-            Just(""), Just("a"), Just("ab"), Just("b"), Just("B"), Just("a%"), Just("é")
+            Just(""), Just("a"), Just("ab"), Just("b"), Just("B"), Just("a%"), Just("é"), Just("aba")
         ]
         .prop_map(|s| Value::Str(s.to_string()))
         .boxed(),
